@@ -59,6 +59,7 @@ type Contract struct {
 	Src      string
 	Opaque   map[string]bool // callees whose contracts are ignored (havoc) in this function
 	Notes    []string
+	Fields   map[string][]string // classification of the receiver struct's fields by kind (reset contracts)
 }
 
 type ContractSet struct {
@@ -260,6 +261,16 @@ func (cs *ContractSet) parseContractFile(path, pkgPath string, trusted bool) err
 				}
 			case "note":
 				cur.Notes = append(cur.Notes, rest)
+			case "fields":
+				kind, names, ok := strings.Cut(rest, ":")
+				if !ok {
+					return fmt.Errorf("%s: fields <kind>: names", src)
+				}
+				if cur.Fields == nil {
+					cur.Fields = map[string][]string{}
+				}
+				kind = strings.TrimSpace(kind)
+				cur.Fields[kind] = append(cur.Fields[kind], strings.Fields(strings.ReplaceAll(names, ",", " "))...)
 			default:
 				return fmt.Errorf("%s: unknown clause keyword %q", src, kw)
 			}
